@@ -94,7 +94,7 @@ pub fn describe(font: &Font, tr: &Track) -> String {
     let cells = |kind: char, keys: Vec<&PathBuf>| -> String {
         keys.iter()
             .map(|k| {
-                let ks = k.to_string_lossy().to_string();
+                let ks = esc_path(k);
                 let c = match tr.inserted.get(&(kind, ks.clone())) {
                     Some(t) => format!("l{}", t),
                     None => "n".to_string(),
@@ -110,18 +110,60 @@ pub fn describe(font: &Font, tr: &Track) -> String {
 }
 
 /// sandbox snapshot as one token
+/// protocol spelling of a path given as BYTES: ASCII letters, digits and `._-/` as they are, every other byte as `%XX`
+/// (so that file names that are not valid UTF-8, or differ only in such bytes, stay distinct)
+pub fn esc(bytes: &[u8]) -> String {
+    let mut s = String::new();
+    for &b in bytes {
+        if b.is_ascii_alphanumeric() || b"._-/".contains(&b) {
+            s.push(b as char);
+        } else {
+            s.push_str(&format!("%{:02X}", b));
+        }
+    }
+    s
+}
+
+pub fn esc_path(p: &Path) -> String {
+    use std::os::unix::ffi::OsStrExt;
+    esc(p.as_os_str().as_bytes())
+}
+
+/// like `common::snapshot`, with the relative paths spelled by `esc` (byte-exact) and sorted by bytes
+pub fn snapshot_b(root: &Path) -> Vec<(String, char, Vec<u8>)> {
+    let mut out = Vec::new();
+    fn walk(base: &Path, p: &Path, out: &mut Vec<(String, char, Vec<u8>)>) {
+        let rel = esc_path(p.strip_prefix(base).unwrap());
+        let md = match std::fs::symlink_metadata(p) {
+            Ok(m) => m,
+            Err(_) => return,
+        };
+        if md.file_type().is_symlink() {
+            out.push((rel, 'l', esc_path(&std::fs::read_link(p).unwrap()).into_bytes()));
+        } else if md.is_dir() {
+            out.push((rel, 'd', Vec::new()));
+            let mut names: Vec<_> = std::fs::read_dir(p).unwrap().map(|e| e.unwrap().path()).collect();
+            names.sort();
+            for n in names {
+                walk(base, &n, out);
+            }
+        } else {
+            out.push((rel, 'f', std::fs::read(p).unwrap_or_default()));
+        }
+    }
+    if std::fs::symlink_metadata(root).is_ok() {
+        walk(root, root, &mut out);
+    }
+    out
+}
+
 pub fn tree_token(sandbox: &Path) -> String {
-    let snap = snapshot(sandbox);
+    let snap = snapshot_b(sandbox);
     let mut parts = Vec::new();
     for (rel, kind, bytes) in snap {
         if rel.is_empty() {
             continue;
         }
-        assert!(
-            rel.chars().all(|c| c.is_ascii_alphanumeric() || "._-/".contains(c)),
-            "path outside the protocol alphabet: {}",
-            rel
-        );
         match kind {
             'd' => parts.push(format!("{}:d", rel)),
             'f' => parts.push(format!("{}:f:{}", rel, tok(&bytes))),
@@ -289,14 +331,17 @@ pub fn api_font(rich: u32, tr: &mut Track) -> Font {
 }
 
 pub fn ins(f: &mut Font, tr: &mut Track, kind: char, key: &str, bytes: Vec<u8>) -> bool {
+    ins_b(f, tr, kind, key.as_bytes(), bytes)
+}
+
+/// insert under a key given as bytes (it need not be valid UTF-8)
+pub fn ins_b(f: &mut Font, tr: &mut Track, kind: char, key: &[u8], bytes: Vec<u8>) -> bool {
+    use std::os::unix::ffi::OsStrExt;
     let t = tok(&bytes);
-    let r = if kind == 'd' {
-        f.data.insert(PathBuf::from(key), bytes)
-    } else {
-        f.images.insert(PathBuf::from(key), bytes)
-    };
+    let path = PathBuf::from(std::ffi::OsStr::from_bytes(key));
+    let r = if kind == 'd' { f.data.insert(path, bytes) } else { f.images.insert(path, bytes) };
     if r.is_ok() {
-        tr.inserted.insert((kind, key.to_string()), t);
+        tr.inserted.insert((kind, esc(key)), t);
     }
     r.is_ok()
 }
@@ -307,7 +352,7 @@ pub fn del(f: &mut Font, tr: &mut Track, kind: char, key: &str) {
     } else {
         f.images.remove(Path::new(key));
     }
-    tr.inserted.remove(&(kind, key.to_string()));
+    tr.inserted.remove(&(kind, esc(key.as_bytes())));
 }
 
 /// the five refusal kinds (bit set); `angle` = the guideline angle 400 (passes `validate`)
